@@ -1855,9 +1855,11 @@ def daemon_session(seed: int, idx: int, corpus: list[Case], steps: int) -> dict[
         # the daemon's watcher compares (size, mtime rounded to seconds): give every edit its own second
         # (environment assumption of mypy itself, DESIGN section 3) by stamping a strictly increasing logical time
         clock[0] += 7
-        for root, _ds, fs in os.walk(wd):
+        for root, ds, fs in os.walk(wd, topdown=False):
             for f in fs:
                 os.remove(os.path.join(root, f))
+            for d_ in ds:      # an empty directory left behind would be a namespace package: a different program
+                shutil.rmtree(os.path.join(root, d_), ignore_errors=True)
         for rel, src in files.items():
             path = os.path.join(wd, rel)
             os.makedirs(os.path.dirname(path), exist_ok=True)
@@ -2065,7 +2067,8 @@ def stage_S(ctx: vlib.Ctx) -> None:
                 k = classify_daemon(ev)
                 if k is not None:
                     job = {"name": "daemon:" + s["case"], "desc": ev["step"], "files": ev["files"], "args": ev.get("args", []),
-                           "targets": ["main.py"], "flagkey": flagkey(ev.get("args", [])), "daemon": True}
+                           "targets": ["main.py"], "flagkey": flagkey(ev.get("args", [])), "daemon": True,
+                           "history": [e2["files"] for e2 in s["events"][: s["events"].index(ev) + 1]]}
                     record(found, k[0], k[1], job, {"status": ev["status"], "out": ev["out"], "err": ""}, "daemon")
                 if ev["step"] == "final" and ev.get("same_as_first") is False and classify_daemon(ev) is None:
                     differs += 1
@@ -2102,7 +2105,8 @@ def stage_S(ctx: vlib.Ctx) -> None:
                     ctx.log(f"shrink failed for {key}: {e!r}")
             tb = f.res.get("tb") or f.res.get("out", "")
             ctx.violation(key, f"{f.what} [{f.mode}, {f.count} input(s); e.g. {f.job.get('name')} {f.job.get('desc')}]",
-                          {"kind": "mypy-run", "mode": f.mode, "files": job["files"], "args": job["args"], "targets": job.get("targets", ["main.py"]),
+                          {"kind": "daemon-history" if (f.mode == "daemon" and job.get("history")) else "mypy-run",
+                           "history": job.get("history"), "mode": f.mode, "files": job["files"], "args": job["args"], "targets": job.get("targets", ["main.py"]),
                            "command": command_of(job), "count": f.count, "origin": f"{f.job.get('name')} {f.job.get('desc')}",
                            "traceback_tail": tb[-1800:]})
         ctx.cov["unconfirmed_in_fresh_process"] = unconfirmed
